@@ -320,7 +320,7 @@ var (
 	badArgs  = []string{"", "nul\x00x"}
 	names    = []string{"", "m0", "m1", "m2"}
 	dirs     = []string{"/tmp", "/nonexistent-dir", ".", "/"}
-	gpaths   = []string{"", "/", ".", "./", "tmp", "/tmp", "/tmp/", "a/b", "./a/b/", "/a"}
+	gpaths   = []string{"", "/", ".", "./", "tmp", "/tmp", "/tmp/", "a/b", "./a/b/", "/a", "b", "/c", "d/", "e", "/f", "g", "x/y", "/z"}
 	startFns = []string{"_start", "_initialize", "run", ""}
 )
 
@@ -771,6 +771,13 @@ func fixedScenarios() [][]step {
 		{stNewM(), stNewS(), stListener(1), stName(0, "m0"), stInst(3, 2), stInst(0, 2), stInst(3, -1), stInst(3, 1), stListener(2), stInst(3, 4)},
 		{stNewF(), stFSMount(0, 1, "/tmp"), stFSMount(1, 2, "tmp/"), stFSMount(1, 1, "a"), stFSMount(1, 2, "b"), stFSMount(3, 2, "c"),
 			stNewM(), stFSConfig(6, 1), stInst(7, -1), stFSMount(1, 1, "/tmp/")},
+		// siblings derived from a base holding 3 (then 5, 6, 7) mounts: the shape where a shared backing array with
+		// spare capacity shows; the first sibling is then mounted in a guest
+		{stNewF(), stFSMount(0, 1, "a"), stFSMount(1, 2, "b"), stFSMount(2, 1, "/c"), stFSMount(3, 1, "x/y"), stFSMount(3, 2, "/z"),
+			stFSMount(3, 2, "e"), stNewM(), stFSConfig(7, 4), stInst(8, -1)},
+		{stNewF(), stFSMount(0, 1, "a"), stFSMount(1, 2, "b"), stFSMount(2, 1, "/c"), stFSMount(3, 1, "d/"), stFSMount(4, 2, "e"),
+			stFSMount(5, 1, "x/y"), stFSMount(5, 2, "/z"), stFSMount(5, 1, "/f"), stFSMount(8, 2, "g"), stFSMount(8, 1, "tmp"), stFSMount(8, 2, "/z"),
+			stFSMount(9, 1, "/z"), stFSMount(9, 2, "tmp"), stNewM(), stFSConfig(14, 6), stInst(15, -1), stFSConfig(14, 9), stInst(16, -1)},
 	}
 }
 
@@ -788,7 +795,25 @@ func runTree(e *env, r *c.Rng, nops int, conc bool, fixed []step) Case {
 	// a third of the trees start with a chain of WithEnv on one module configuration (the shape where a shared
 	// backing array with spare capacity would show), the rest is random
 	var script [][]string
-	if fixed == nil && r.Intn(3) == 0 {
+	var fsScript [][]any // a chain of k mounts on distinct guest paths, then sibling derivations from its end and its interior
+	if fixed == nil && r.Intn(4) == 0 {
+		k := 1 + r.Intn(9)
+		perm := []string{"tmp", "/a", "b", "/c", "d/", "e", "/f", "g", "x/y", "/z", "a/b", ""}
+		for i := len(perm) - 1; i > 0; i-- {
+			j := r.Intn(i + 1)
+			perm[i], perm[j] = perm[j], perm[i]
+		}
+		for j := 0; j < k; j++ {
+			fsScript = append(fsScript, []any{-1, 1 + r.Intn(2), perm[j]}) // parent -1: the latest node
+		}
+		for j := 2 + r.Intn(3); j > 0; j-- {
+			par := k // the chain's end (node 0 is the root)
+			if r.Intn(3) == 0 {
+				par = 1 + r.Intn(k)
+			}
+			fsScript = append(fsScript, []any{par, 1 + r.Intn(2), perm[(k+j)%len(perm)]})
+		}
+	} else if fixed == nil && r.Intn(3) == 0 {
 		for j := 1 + r.Intn(5); j > 0; j-- {
 			script = append(script, []string{pickS(r, envKeys), pickS(r, envVals)})
 		}
@@ -802,6 +827,21 @@ func runTree(e *env, r *c.Rng, nops int, conc bool, fixed []step) Case {
 				break
 			}
 			op, res, obs = fixed[len(cs.Ops)](e, nodes)
+		} else if len(fsScript) > 0 {
+			if len(nodes) == 0 {
+				op, res, obs = stNewF()(e, nodes)
+			} else {
+				st := fsScript[0]
+				fsScript = fsScript[1:]
+				par := st[0].(int)
+				if par < 0 {
+					par = len(nodes) - 1
+				}
+				op, res, obs = stFSMount(par, st[1].(int), st[2].(string))(e, nodes)
+				if len(fsScript) == 0 { // what a guest sees through the chain's end after its siblings were derived
+					fsScript = nil
+				}
+			}
 		} else if len(script) > 0 {
 			if len(nodes) == 0 {
 				op, res, obs = []any{"newM"}, &node{kind: 'M', m: wazero.NewModuleConfig()}, [][]int64{}
